@@ -16,19 +16,19 @@ LITERALS = [0, 1, -1, 2, 255, 256, 32767, 32768, -32768, -32769, 65535, 65536, -
 
 
 def windows(isa, k, extra=1, tier='quick'):
-    """window starts p (number of untouched variables before the k touched ones) around the register/spill
-    boundary, at 0, and at one deep-spill position"""
+    """window starts p (number of untouched variables before the k touched ones): at 0, around the
+    register/spill boundary, and (thorough) at one deep-spill position"""
     b = BOUNDARY[isa]
     mx = MAXVARS[isa]
-    out = {0, 1}
     if b is not None:
-        lo = max(0, b - k - 1)
-        for p in range(lo, b + 2):
-            out.add(p)
-        if DEEP[isa] is not None:
-            out.add(DEEP[isa])
+        if tier == 'quick':
+            out = {0, max(0, b - k), max(0, b - 1), b}
+        else:
+            out = {0, 1} | set(range(max(0, b - k - 1), b + 2)) | {DEEP[isa]}
     else:
-        out |= {2, max(0, mx - k - extra - 1), max(0, mx - k - extra)}
+        out = {0, 2, max(0, mx - k - extra)}
+        if tier != 'quick':
+            out |= {1, max(0, mx - k - extra - 1)}
     return sorted(p for p in out if p + k + extra <= mx)
 
 
@@ -129,7 +129,7 @@ def let_shapes(isa, tier, arities=None):
     out = []
     arities = arities if arities is not None else ([0, 1, 2, 3] if tier == 'quick' else [0, 1, 2, 3])
     for ar in arities:
-        for p in windows(isa, ar):
+        for p in windows(isa, ar, tier=tier):
             for ks in kind_lists(ar, tier):
                 for (nx, pos) in ((1, 0), (3, 2)):
                     out.append({'kind': 'let', 'p': p, 'args': ks, 'nxtors': nx, 'tagpos': pos})
@@ -140,7 +140,7 @@ def switch_shapes(isa, tier, arities=None):
     out = []
     arities = arities if arities is not None else [0, 1, 2, 3]
     for ar in arities:
-        for p in windows(isa, max(ar, 1), extra=0):
+        for p in windows(isa, max(ar, 1), extra=0, tier=tier):
             for ks in kind_lists(ar, tier):
                 out.append({'kind': 'switch', 'p': p, 'clauses': [ks]})
                 out.append({'kind': 'switch', 'p': p, 'clauses': [[], ks]})
@@ -153,7 +153,7 @@ def create_shapes(isa, tier, arities=None):
     out = []
     arities = arities if arities is not None else [0, 1, 2, 3]
     for ar in arities:
-        for p in windows(isa, ar):
+        for p in windows(isa, ar, tier=tier):
             for ks in kind_lists(ar, tier, full_upto=1):
                 out.append({'kind': 'create', 'p': p, 'env': ks, 'methods': [['ext']]})
                 out.append({'kind': 'create', 'p': p, 'env': ks, 'methods': [['ext', 'cns'], []]})
@@ -174,9 +174,9 @@ def substitute_shapes(isa, tier, max_m=3, max_n=3):
                 continue
             k = max(m, n)
             if b is None:
-                ps = [0, 2, MAXVARS[isa] - k]
+                ps = [0, MAXVARS[isa] - k] if tier == 'quick' else [0, 2, MAXVARS[isa] - k]
             else:
-                ps = sorted({0, b - 1, b}) if tier == 'quick' else sorted(set([0] + list(range(max(0, b - k), b + 1)) + [DEEP[isa]]))
+                ps = sorted({0, b - 1}) if tier == 'quick' else sorted(set([0] + list(range(max(0, b - k), b + 1)) + [DEEP[isa]]))
             ps = sorted(set(p for p in ps if 0 <= p and p + k <= MAXVARS[isa]))
             for old in itertools.product(KINDS if tier == 'thorough' else ['ext', 'prd'], repeat=n):
                 for mp in (all_maps(m, n) if n > 0 else [[]]):
@@ -190,7 +190,7 @@ def method_shapes(isa, tier, arities=None):
     out = []
     arities = arities if arities is not None else [0, 1, 2, 3]
     for ar in arities:
-        for a in windows(isa, max(ar, 1), extra=0):
+        for a in windows(isa, max(ar, 1), extra=0, tier=tier):
             args = (['ext', 'prd', 'cns'] + ['ext'] * a)[:a]
             for ks in kind_lists(ar, tier, full_upto=2):
                 out.append({'kind': 'method', 'env': ks, 'methods': [args], 'i': 0})
